@@ -22,12 +22,14 @@ type sim struct{}
 func init() { core.Register(sim{}) }
 
 func (sim) Name() string        { return "walletsim" }
-func (sim) Props() []string     { return []string{"C09", "C15", "C20"} }
+func (sim) Props() []string     { return []string{"C09", "C15", "C20", "C06"} }
 func (sim) Level(string) string { return "exploration" }
 func (sim) Rule(prop string) string {
 	switch prop {
 	case "C09":
 		return "C09: a case is (parallel sections of address-issuing calls by 2-4 user tasks on the same and on different scope/account/branch, scheduling strategy + seed, target-site bias on the commit->callback window); every mutex acquisition, goroutine start and database-transaction boundary of wallet, waddrmgr, bdb and bbolt is a scheduler decision."
+	case "C06":
+		return "C06: a case is (wallet history: receipts on all four default address types and two accounts, coinbase credits near maturity, locks, leases, clock, blocks, reorgs; requests: SendOutputs / dry CreateSimpleTx / SendOutputsWithInput with eligible and ineligible explicit inputs, random outputs, fee rates, minconf, scope, account, selection strategy; 1-4 concurrent senders)."
 	case "C20":
 		return "C20: a case is (wallet history of receipts, sends incl. chained unconfirmed ones, built-then-published transactions, leases, blocks, restarts; at every broadcast — initial and each re-broadcast after a restart — a backend answer class: accepted, already in mempool, already confirmed, rejected (fee / generic / conflict), transport error, subscription failure)."
 	case "C15":
@@ -54,6 +56,10 @@ func (sim) Explain(prop string, st map[string]int64) string {
 	switch prop {
 	case "C09":
 		probes = []string{"probe.parked-between-commit-and-callback", "probe.same-branch-concurrent", "probe.blocked-on-newAddrMtx", "probe.dryrun-concurrent", "probe.porcupine-checked"}
+	case "C06":
+		probes = []string{"probe.two-senders-in-flight", "probe.spent-mature-coinbase", "probe.spent-unconfirmed-coin", "probe.explicit-ineligible:locked", "probe.explicit-ineligible:leased",
+			"probe.explicit-ineligible:other-account", "probe.explicit-ineligible:other-scope", "probe.explicit-ineligible:too-few-confirmations", "probe.explicit-ineligible:immature-coinbase",
+			"probe.explicit-ineligible:already-spent", "probe.explicit-ineligible:unknown-outpoint", "probe.verified:pubkeyhash", "probe.verified:witness_v0_keyhash", "probe.verified:scripthash", "probe.verified:witness_v1_taproot"}
 	case "C20":
 		probes = []string{"probe.rejection-with-other-unmined", "probe.chained-unconfirmed-send", "probe.already-in-mempool", "probe.already-confirmed",
 			"probe.rejection-of-recorded-tx", "probe.resend-with-unmined", "probe.resend-chain", "fault.backend-answer.transport", "fault.backend-answer.reject-fee",
@@ -89,6 +95,8 @@ func (sim) Generate(prop, tier string, seed uint64) *core.Plan {
 		genC15(r, p)
 	case "C20":
 		genC20(r, p)
+	case "C06":
+		genC06(r, p)
 	}
 	return p
 }
@@ -217,6 +225,7 @@ type issueRec struct {
 }
 
 type runState struct {
+	sent6   []sentRec
 	x       *world
 	issues  []issueRec
 	errs    map[string]int
@@ -366,6 +375,9 @@ func (rs *runState) exec(task, step int, op core.Op) {
 		}
 		scope := scopes[int(uint64(op.Arg(0))%uint64(len(scopes)))]
 		account := uint32(0)
+		if op.Arg(1) == 1 && x.haveAcct1 {
+			account, scope = 1, x.acct1Scope
+		}
 		kind := int(uint64(op.Arg(2)) % 3)
 		var addr btcutil.Address
 		var err error
@@ -390,7 +402,14 @@ func (rs *runState) exec(task, step int, op core.Op) {
 		}
 		is, ok := x.record(addr, scope, account, name)
 		if !ok {
-			x.fail("address-not-seed-child:"+name, "%s returned %s which is not child <400 of the seed on scope %v account 0", name, addr, scope)
+			info := ""
+			if ma, e := x.w.AddressInfo(addr); e == nil {
+				if pk, isPk := ma.(waddrmgr.ManagedPubKeyAddress); isPk {
+					sc, dp, _ := pk.DerivationInfo()
+					info = fmt.Sprintf(" (the wallet says: scope %v path %+v)", sc, dp)
+				}
+			}
+			x.fail("address-not-seed-child:"+name, "%s returned %s which is not child <400 of the seed on scope %v account %d%s", name, addr, scope, account, info)
 			return
 		}
 		rs.issues = append(rs.issues, issueRec{task: task, kind: name, scope: scope, branch: is.branch, index: is.index,
@@ -619,6 +638,23 @@ func (rs *runState) exec(task, step int, op core.Op) {
 			return
 		}
 		rs.send(task, step, op)
+	case "send6":
+		if x.running {
+			rs.send6(task, step, op)
+		}
+	case "lockop":
+		if x.running {
+			rs.lockop(step, op)
+		}
+	case "newacct":
+		if x.running && !x.haveAcct1 {
+			sc := scopes[int(uint64(op.Arg(0))%uint64(len(scopes)))]
+			if n, err := x.w.NextAccount(sc, "second"); err == nil && n == 1 {
+				x.haveAcct1, x.acct1Scope = true, sc
+				env.Count("op.NextAccount")
+				env.Eff()
+			}
+		}
 	case "sendx":
 		if x.running {
 			rs.sendx(step, op)
